@@ -1,21 +1,29 @@
 // gen_c18 regenerates lean/GocoinV/Gen/NetFacts.lean from /repo/client/network/*.go (translator tie
 // for C18). For every message handler it prints the SKELETON of the function as a list of facts in
 // source order: every `if` condition (marked `guard` when the body leaves the function or loop),
-// every `for` header, every index / slice expression on the payload (and on the two slices indexed
+// every `for` header, every index / slice expression on the payload (and on the slices indexed
 // with peer-chosen values), every Lock / Unlock / deferred Unlock, every return, and every call of
 // a decoder or of a penalty (DoS / Misbehave with its reason). The model restates these lists
 // (Model/NetParseFacts.lean) and Lean compares them, so an edited guard, a dropped Unlock or a new
-// index expression breaks a proof obligation. It also evaluates maxmsgsize() into a Lean function
+// index expression breaks a proof obligation. It also evaluates the message size table into a Lean function
 // and extracts the command → handler table of Run's switch. It also compares, clause by clause, the
 // switch of the harness's dispatch mirror (client/network/verif_export.go VerifDispatch, the second
-// stream of go/cmd/c18) with Run's `switch cmd.cmd` and exits non-zero on any difference.
+// stream of go/cmd/c18) with Run's dispatch switch and exits non-zero on any difference.
+//
+// The facts are written in a CANONICAL SPELLING (canon.go) so that behaviour-preserving edits do not move
+// them: names of locals / parameters / named results / labels / receivers never appear (numbered instead),
+// unexported functions are followed into instead of being named (the handler of "block" is whatever Run's
+// clause calls, the size table is found by its shape), conditions are in negation normal form, if/else has
+// one canonical polarity, else-after-leave is flattened, a break-free switch is its if-chain, the functions
+// may sit in any file of the package and in any order. What still moves a fact: any change of a guard's
+// atoms or constants, of an index / slice expression on peer bytes, of the Lock / Unlock / return / penalty
+// sequence, a rewrite of a decoder into different operations (new slices of the payload), renamed FIELDS or
+// exported names, an ordered comparison flipped to its negation where neither operand is provably an integer.
 package main
 
 import (
-	"bytes"
 	"fmt"
 	"go/ast"
-	"go/printer"
 	"go/token"
 	"os"
 	"regexp"
@@ -24,7 +32,6 @@ import (
 	"strings"
 
 	"verif/vlib"
-	"verif/vtrans"
 )
 
 func die(err error) {
@@ -32,210 +39,10 @@ func die(err error) {
 	os.Exit(2)
 }
 
+// fset / show: the file set of the instance that is being walked (locks.go)
 var fset *token.FileSet
 
-func show(n ast.Node) string {
-	var b bytes.Buffer
-	printer.Fprint(&b, fset, n)
-	s := b.String()
-	s = strings.Join(strings.Fields(s), " ")
-	return s
-}
-
-var payloadBases = map[string]bool{"pl": true, "cmd.pl": true, "b": true, "hdr": true, "col.Txs": true,
-	"crec.Block.Txs": true, "c.recv.hdr": true, "c.recv.dat": true, "c.aesData": true}
-
-var callNames = map[string]bool{"VLen": true, "ReadVLen": true, "TxSize": true, "NewTx": true, "NewBlock": true,
-	"DoS": true, "Misbehave": true, "ProcessNewHeader": true, "Assemble": true, "ParseBytes": true, "Read": true,
-	"maxmsgsize": true, "Decrypt": true, "make": true, "panic": true}
-
-func leaves(b *ast.BlockStmt) bool {
-	if b == nil || len(b.List) == 0 {
-		return false
-	}
-	switch s := b.List[len(b.List)-1].(type) {
-	case *ast.ReturnStmt:
-		return true
-	case *ast.BranchStmt:
-		return s.Tok == token.BREAK || s.Tok == token.CONTINUE || s.Tok == token.GOTO
-	case *ast.ExprStmt:
-		if c, ok := s.X.(*ast.CallExpr); ok {
-			if id, ok := c.Fun.(*ast.Ident); ok && id.Name == "panic" {
-				return true
-			}
-		}
-	}
-	return false
-}
-
-// skeleton walks a function body in source order.
-func skeleton(fd *ast.FuncDecl) []string {
-	var out []string
-	var walkExpr func(e ast.Node)
-	walkExpr = func(e ast.Node) {
-		ast.Inspect(e, func(n ast.Node) bool {
-			switch x := n.(type) {
-			case *ast.FuncLit:
-				out = append(out, "funclit{")
-				walkBlock(x.Body, &out, walkExpr)
-				out = append(out, "}")
-				return false
-			case *ast.IndexExpr:
-				if payloadBases[show(x.X)] {
-					out = append(out, "index: "+show(x))
-				}
-			case *ast.SliceExpr:
-				if payloadBases[show(x.X)] {
-					out = append(out, "slice: "+show(x))
-				}
-			case *ast.SelectorExpr:
-				if show(x.X) == "c.aesData" {
-					out = append(out, "deref: "+show(x))
-				}
-			case *ast.CallExpr:
-				name := ""
-				switch f := x.Fun.(type) {
-				case *ast.SelectorExpr:
-					name = f.Sel.Name
-					if name == "Lock" || name == "Unlock" {
-						out = append(out, strings.ToLower(name)+": "+show(f.X))
-						return true
-					}
-				case *ast.Ident:
-					name = f.Name
-				}
-				if callNames[name] {
-					if name == "make" {
-						if len(x.Args) >= 2 {
-							out = append(out, "call: "+show(x))
-						}
-					} else if name == "Read" {
-						out = append(out, "call: "+show(x))
-					} else if name == "DoS" || name == "Misbehave" || name == "panic" {
-						out = append(out, "penalty: "+show(x))
-					} else {
-						out = append(out, "call: "+show(x))
-					}
-				}
-			}
-			return true
-		})
-	}
-	walkBlock(fd.Body, &out, walkExpr)
-	return out
-}
-
-func walkBlock(b *ast.BlockStmt, out *[]string, walkExpr func(ast.Node)) {
-	if b == nil {
-		return
-	}
-	for _, st := range b.List {
-		walkStmt(st, out, walkExpr)
-	}
-}
-
-func walkStmt(st ast.Stmt, out *[]string, walkExpr func(ast.Node)) {
-	switch s := st.(type) {
-	case *ast.IfStmt:
-		if s.Init != nil {
-			walkStmt(s.Init, out, walkExpr)
-		}
-		kind := "if: "
-		if leaves(s.Body) {
-			kind = "guard: "
-		}
-		*out = append(*out, kind+show(s.Cond))
-		walkExpr(s.Cond)
-		*out = append(*out, "{")
-		walkBlock(s.Body, out, walkExpr)
-		*out = append(*out, "}")
-		if s.Else != nil {
-			*out = append(*out, "else{")
-			switch e := s.Else.(type) {
-			case *ast.BlockStmt:
-				walkBlock(e, out, walkExpr)
-			default:
-				walkStmt(e, out, walkExpr)
-			}
-			*out = append(*out, "}")
-		}
-	case *ast.ForStmt:
-		h := "for: "
-		if s.Init != nil {
-			h += show(s.Init)
-		}
-		h += "; "
-		if s.Cond != nil {
-			h += show(s.Cond)
-		}
-		h += "; "
-		if s.Post != nil {
-			h += show(s.Post)
-		}
-		*out = append(*out, h)
-		if s.Cond != nil {
-			walkExpr(s.Cond)
-		}
-		*out = append(*out, "{")
-		walkBlock(s.Body, out, walkExpr)
-		*out = append(*out, "}")
-	case *ast.RangeStmt:
-		*out = append(*out, "range: "+show(s.X), "{")
-		walkBlock(s.Body, out, walkExpr)
-		*out = append(*out, "}")
-	case *ast.SwitchStmt:
-		tag := ""
-		if s.Tag != nil {
-			tag = show(s.Tag)
-		}
-		*out = append(*out, "switch: "+tag, "{")
-		for _, c := range s.Body.List {
-			cc := c.(*ast.CaseClause)
-			var ls []string
-			for _, l := range cc.List {
-				ls = append(ls, show(l))
-			}
-			*out = append(*out, "case: "+strings.Join(ls, ","))
-			for _, b := range cc.Body {
-				walkStmt(b, out, walkExpr)
-			}
-		}
-		*out = append(*out, "}")
-	case *ast.TypeSwitchStmt:
-		*out = append(*out, "typeswitch: "+show(s.Assign), "{")
-		for _, c := range s.Body.List {
-			cc := c.(*ast.CaseClause)
-			for _, b := range cc.Body {
-				walkStmt(b, out, walkExpr)
-			}
-		}
-		*out = append(*out, "}")
-	case *ast.BlockStmt:
-		walkBlock(s, out, walkExpr)
-	case *ast.LabeledStmt:
-		*out = append(*out, "label: "+s.Label.Name)
-		walkStmt(s.Stmt, out, walkExpr)
-	case *ast.ReturnStmt:
-		for _, r := range s.Results {
-			walkExpr(r)
-		}
-		*out = append(*out, "return")
-	case *ast.BranchStmt:
-		*out = append(*out, strings.ToLower(s.Tok.String()))
-	case *ast.DeferStmt:
-		if f, ok := s.Call.Fun.(*ast.SelectorExpr); ok && f.Sel.Name == "Unlock" {
-			*out = append(*out, "defer-unlock: "+show(f.X))
-			return
-		}
-		*out = append(*out, "defer{")
-		walkExpr(s.Call)
-		*out = append(*out, "}")
-	case *ast.SelectStmt:
-		*out = append(*out, "select")
-	default:
-		walkExpr(st)
-	}
-}
+func show(n ast.Node) string { return showIn(fset, n) }
 
 func leanStr(s string) string {
 	return strconv.Quote(s) // Go and Lean agree on \" \\ for the ASCII subset the sources use
@@ -274,149 +81,168 @@ func evalConst(e ast.Expr, consts map[string]ast.Expr) (float64, error) {
 	return 0, fmt.Errorf("unsupported constant expression %T", e)
 }
 
-type target struct{ file, recv, fn string }
+
+type target struct{ recv, fn, def, via string }
 
 // functions left out of the lock traces, with the reason
 var lockTraceSkip = map[string]string{
 	"OneConnection.InvStore": "writes InvDone under its documented precondition 'make sure c.Mutex is locked when calling it'; every call site is a shared access of the traces instead",
 	"NewConnection":          "constructor: the object is not yet visible to any other thread",
+	"CachedBlocksDel":        "vars.go, not one of the ten files C18 anchors: two consistency-check panics under CachedBlocksMutex, run by the block-processing thread and not by a connection's thread (the other functions of vars.go are traced, so that a function moved there stays traced)",
 }
 
-func main() {
-	targets := []target{
-		{"client/network/ver.go", "OneConnection", "HandleVersion"},
-		{"client/network/ver.go", "OneConnection", "AuthRvcd"},
-		{"client/network/addr.go", "OneConnection", "ParseAddr"},
-		{"client/network/invs.go", "OneConnection", "ProcessInv"},
-		{"client/network/invs.go", "OneConnection", "GetBlocks"},
-		{"client/network/hdrs.go", "OneConnection", "HandleHeaders"},
-		{"client/network/hdrs.go", "OneConnection", "GetHeaders"},
-		{"client/network/data.go", "OneConnection", "ProcessGetData"},
-		{"client/network/data.go", "OneConnection", "processGetData"},
-		{"client/network/data.go", "OneConnection", "netBlockReceived"},
-		{"client/network/data.go", "", "parseLocatorsPayload"},
-		{"client/network/cblk.go", "OneConnection", "ProcessGetBlockTxn"},
-		{"client/network/cblk.go", "OneConnection", "ProcessCmpctBlock"},
-		{"client/network/cblk.go", "OneConnection", "ProcessBlockTxn"},
-		{"client/network/cblk.go", "CmpctBlockCollector", "Assemble"},
-		{"client/network/trxs.go", "OneConnection", "ParseTxNet"},
-		{"client/network/trxs.go", "OneConnection", "ProcessGetMP"},
-		{"client/network/ping.go", "OneConnection", "HandlePong"},
-		{"client/network/core.go", "OneConnection", "FetchMessage"},
+func writeList(sb *strings.Builder, name, legend string, sk []string, oneLine bool) {
+	if legend != "" {
+		fmt.Fprintf(sb, "-- names: %s\n", legend)
 	}
-	var sb strings.Builder
-	sb.WriteString("/- GENERATED by go/cmd/gen_c18 from client/network/*.go — do not edit; not in git. -/\n")
-	sb.WriteString("namespace GocoinV.Gen.NetFacts\n\n")
-	nfacts := 0
-	files := map[string]*vtrans.File{}
-	var names []string
-	for _, t := range targets {
-		f := files[t.file]
-		if f == nil {
-			var err error
-			f, err = vtrans.Parse(t.file)
-			if err != nil {
-				die(err)
-			}
-			files[t.file] = f
-		}
-		fset = f.Fset
-		fd, err := f.Func(t.recv, t.fn)
-		if err != nil {
-			die(err)
-		}
-		sk := skeleton(fd)
-		nfacts += len(sk)
-		fmt.Fprintf(&sb, "def %s : List String := [\n", t.fn)
+	if oneLine {
+		fmt.Fprintf(sb, "def %s : List String := [", name)
 		for i, s := range sk {
-			sep := ","
-			if i == len(sk)-1 {
-				sep = ""
+			if i > 0 {
+				sb.WriteString(", ")
 			}
-			fmt.Fprintf(&sb, "  %s%s\n", leanStr(s), sep)
+			sb.WriteString(leanStr(s))
 		}
 		sb.WriteString("]\n\n")
-		names = append(names, t.fn)
+		return
 	}
-
-	// ---- Run: the inline handlers and the dispatch table
-	tick := files["client/network/tick.go"]
-	if tick == nil {
-		var err error
-		tick, err = vtrans.Parse("client/network/tick.go")
-		if err != nil {
-			die(err)
+	fmt.Fprintf(sb, "def %s : List String := [\n", name)
+	for i, s := range sk {
+		sep := ","
+		if i == len(sk)-1 {
+			sep = ""
 		}
+		fmt.Fprintf(sb, "  %s%s\n", leanStr(s), sep)
 	}
-	fset = tick.Fset
-	run, err := tick.Func("OneConnection", "Run")
-	if err != nil {
-		die(err)
-	}
+	sb.WriteString("]\n\n")
+}
+
+// findDispatch: Run's switch over the command name (the one with a clause "inv") and the object of the
+// message variable (the root of its tag expression <msg>.cmd).
+func findDispatch(run *inst) (*ast.SwitchStmt, *ast.Object) {
 	var sw *ast.SwitchStmt
-	ast.Inspect(run.Body, func(n ast.Node) bool {
-		if s, ok := n.(*ast.SwitchStmt); ok && s.Tag != nil && show(s.Tag) == "cmd.cmd" {
-			sw = s
-			return false
+	ast.Inspect(run.fd.Body, func(n ast.Node) bool {
+		s, ok := n.(*ast.SwitchStmt)
+		if !ok || s.Tag == nil || sw != nil {
+			return sw == nil
+		}
+		for _, c := range s.Body.List {
+			for _, l := range c.(*ast.CaseClause).List {
+				if b, ok := l.(*ast.BasicLit); ok && b.Value == `"inv"` {
+					sw = s
+					return false
+				}
+			}
 		}
 		return true
 	})
 	if sw == nil {
-		die(fmt.Errorf("Run: `switch cmd.cmd` not found"))
+		die(fmt.Errorf("Run: the switch over the command name (a clause \"inv\") was not found"))
 	}
-	type disp struct{ cmd, first string }
+	sel, ok := sw.Tag.(*ast.SelectorExpr)
+	if !ok {
+		die(fmt.Errorf("Run: the dispatch switch does not switch over a field of the message"))
+	}
+	id, ok := sel.X.(*ast.Ident)
+	if !ok || id.Obj == nil {
+		die(fmt.Errorf("Run: the message of the dispatch switch is not a local variable"))
+	}
+	return sw, id.Obj
+}
+
+func main() {
+	ix := loadPackage("client/network")
+	sizeSf := sizeTableFunc(ix)
+
+	var sb strings.Builder
+	sb.WriteString("/- GENERATED by go/cmd/gen_c18 from client/network/*.go — do not edit; not in git.\n")
+	sb.WriteString("   Canonical spelling: receiver = c, parameters = $p1.., named results = $r1.., other locals and labels\n")
+	sb.WriteString("   = $1, $2, .. in the order of first appearance (the `names:` comments give the source names);\n")
+	sb.WriteString("   unexported callees are followed into (`return^` = return of a followed callee); conditions in negation\n")
+	sb.WriteString("   normal form, if/else in canonical polarity, else after a leaving branch flattened. -/\n")
+	sb.WriteString("namespace GocoinV.Gen.NetFacts\n\n")
+	nfacts := 0
+
+	// ---- Run: the dispatch table (it also names the unexported handlers)
+	run := instantiate(ix.must("OneConnection", "Run")).asTarget()
+	sw, msgObj := findDispatch(run)
+	run.setName(msgObj, "cmd")
+	type disp struct{ cmd, first, raw string }
 	var table []disp
-	inline := map[string][]string{}
+	clauseOf := map[string]*ast.CaseClause{}
 	for _, c := range sw.Body.List {
 		cc := c.(*ast.CaseClause)
-		first := ""
+		first, raw := "", ""
 		for _, b := range cc.Body {
 			ast.Inspect(b, func(n ast.Node) bool {
 				if first != "" {
 					return false
 				}
 				if ce, ok := n.(*ast.CallExpr); ok {
-					if se, ok := ce.Fun.(*ast.SelectorExpr); ok && show(se.X) == "c" {
-						first = se.Sel.Name + "(" + argList(ce) + ")"
+					if se, ok := ce.Fun.(*ast.SelectorExpr); ok && showIn(run.fset, se.X) == "c" {
+						raw = se.Sel.Name
+						nm := raw
+						if !exported(nm) {
+							nm = "~" // an unexported handler is identified by its clause, not by its name
+						}
+						first = numberStr(nm+"("+argListIn(run, ce)+")", map[string]string{})
 						return false
 					}
 				}
 				return true
 			})
 		}
-		var sk []string
-		for _, b := range cc.Body {
-			var walkExpr func(e ast.Node)
-			walkExpr = func(e ast.Node) {
-				ast.Inspect(e, func(n ast.Node) bool {
-					switch x := n.(type) {
-					case *ast.IndexExpr:
-						if payloadBases[show(x.X)] {
-							sk = append(sk, "index: "+show(x))
-						}
-					case *ast.SliceExpr:
-						if payloadBases[show(x.X)] {
-							sk = append(sk, "slice: "+show(x))
-						}
-					case *ast.CallExpr:
-						if f, ok := x.Fun.(*ast.SelectorExpr); ok && (f.Sel.Name == "Lock" || f.Sel.Name == "Unlock") {
-							sk = append(sk, strings.ToLower(f.Sel.Name)+": "+show(f.X))
-						}
-					}
-					return true
-				})
-			}
-			walkStmt(b, &sk, walkExpr)
-		}
 		for _, l := range cc.List {
-			cmd, _ := strconv.Unquote(show(l))
-			table = append(table, disp{cmd, first})
-			inline[cmd] = sk
+			cmd, _ := strconv.Unquote(showIn(run.fset, l))
+			table = append(table, disp{cmd, first, raw})
+			clauseOf[cmd] = cc
 		}
 		if cc.List == nil {
-			table = append(table, disp{"<default>", first})
+			table = append(table, disp{"<default>", first, raw})
 		}
 	}
+
+	targets := []target{
+		{"OneConnection", "HandleVersion", "HandleVersion", ""},
+		{"OneConnection", "AuthRvcd", "AuthRvcd", ""},
+		{"OneConnection", "ParseAddr", "ParseAddr", ""},
+		{"OneConnection", "ProcessInv", "ProcessInv", ""},
+		{"OneConnection", "GetBlocks", "GetBlocks", ""},
+		{"OneConnection", "HandleHeaders", "HandleHeaders", ""},
+		{"OneConnection", "GetHeaders", "GetHeaders", ""},
+		{"OneConnection", "ProcessGetData", "ProcessGetData", ""},
+		{"OneConnection", "", "netBlockReceived", "block"}, // whatever Run calls for "block"
+		{"OneConnection", "ProcessGetBlockTxn", "ProcessGetBlockTxn", ""},
+		{"OneConnection", "ProcessCmpctBlock", "ProcessCmpctBlock", ""},
+		{"OneConnection", "ProcessBlockTxn", "ProcessBlockTxn", ""},
+		{"CmpctBlockCollector", "Assemble", "Assemble", ""},
+		{"OneConnection", "ParseTxNet", "ParseTxNet", ""},
+		{"OneConnection", "ProcessGetMP", "ProcessGetMP", ""},
+		{"OneConnection", "HandlePong", "HandlePong", ""},
+		{"OneConnection", "FetchMessage", "FetchMessage", ""},
+	}
+	noInline := map[string]bool{}
+	for i, t := range targets {
+		if t.via != "" {
+			for _, d := range table {
+				if d.cmd == t.via {
+					targets[i].fn = d.raw
+				}
+			}
+			if targets[i].fn == "" {
+				die(fmt.Errorf("Run: no handler call found in case %q", t.via))
+			}
+		}
+		noInline[ix.must(t.recv, targets[i].fn).key] = true
+	}
+	for _, t := range targets {
+		sk, lg := skeletonOf(ix, ix.must(t.recv, t.fn), noInline, sizeSf.key)
+		nfacts += len(sk)
+		writeList(&sb, t.def, lg, sk, false)
+	}
+
+	// the clauses of a switch over distinct strings are a set: sorted by command
+	sort.SliceStable(table, func(i, j int) bool { return table[i].cmd < table[j].cmd })
 	sb.WriteString("def dispatch : List (String × String) := [\n")
 	for i, d := range table {
 		sep := ","
@@ -429,73 +255,39 @@ func main() {
 	nfacts += len(table)
 	// ---- the dispatch mirror of the harness's second stream (client/network/verif_export.go VerifDispatch)
 	//      must be a clause-by-clause copy of this switch: any difference stops the run (broken tie)
-	nfacts += compareMirror(sw)
+	nfacts += compareMirror(ix, run, sw)
 
+	// ---- Run's inline cases
 	for _, cmd := range []string{"feefilter", "sendcmpct", "ping", "authack"} {
-		sk, ok := inline[cmd]
+		cc, ok := clauseOf[cmd]
 		if !ok {
 			die(fmt.Errorf("Run: case %q not found", cmd))
 		}
-		fmt.Fprintf(&sb, "def inline_%s : List String := [", cmd)
-		for i, s := range sk {
-			if i > 0 {
-				sb.WriteString(", ")
-			}
-			sb.WriteString(leanStr(s))
-		}
-		sb.WriteString("]\n\n")
+		k := &skel{ix: ix, noInline: noInline, sizeFn: sizeSf.key, insts: []*inst{run}}
+		k.block(run, cc.Body)
+		tb := map[string]string{}
+		sk := number(k.out, tb)
+		writeList(&sb, "inline_"+cmd, legend(tb, k.insts...), sk, true)
 		nfacts += len(sk)
 	}
 	// the gate in front of the switch: version / no version yet
 	gate := []string{}
-	ast.Inspect(run.Body, func(n ast.Node) bool {
+	ast.Inspect(run.fd.Body, func(n ast.Node) bool {
 		if s, ok := n.(*ast.IfStmt); ok {
-			c := show(s.Cond)
+			c := showIn(run.fset, s.Cond)
 			if c == `cmd.cmd == "version"` || c == "!c.X.VersionReceived" || c == "c.X.VersionReceived" {
 				gate = append(gate, c)
 			}
 		}
 		return true
 	})
-	fmt.Fprintf(&sb, "def runGate : List String := [")
-	for i, s := range gate {
-		if i > 0 {
-			sb.WriteString(", ")
-		}
-		sb.WriteString(leanStr(s))
-	}
-	sb.WriteString("]\n\n")
+	writeList(&sb, "runGate", "", gate, true)
 	nfacts += len(gate)
 
-	// ---- maxmsgsize
-	core := files["client/network/core.go"]
-	fset = core.Fset
-	consts := map[string]ast.Expr{}
-	for _, d := range core.AST.Decls {
-		if gd, ok := d.(*ast.GenDecl); ok && gd.Tok == token.CONST {
-			for _, s := range gd.Specs {
-				vs := s.(*ast.ValueSpec)
-				for i, n := range vs.Names {
-					if i < len(vs.Values) {
-						consts[n.Name] = vs.Values[i]
-					}
-				}
-			}
-		}
-	}
-	mm, err := core.Func("", "maxmsgsize")
-	if err != nil {
-		die(err)
-	}
-	var msw *ast.SwitchStmt
-	for _, st := range mm.Body.List {
-		if s, ok := st.(*ast.SwitchStmt); ok {
-			msw = s
-		}
-	}
-	if msw == nil || len(mm.Body.List) != 1 || show(msw.Tag) != "cmd" {
-		die(fmt.Errorf("maxmsgsize: unexpected shape"))
-	}
+	// ---- the message size table
+	mm := instantiate(sizeSf)
+	msw := mm.fd.Body.List[0].(*ast.SwitchStmt)
+	consts := ix.consts
 	type mrow struct {
 		cmd string
 		v   uint64
@@ -505,13 +297,7 @@ func main() {
 	haveDef := false
 	for _, c := range msw.Body.List {
 		cc := c.(*ast.CaseClause)
-		if len(cc.Body) != 1 {
-			die(fmt.Errorf("maxmsgsize: case with %d statements", len(cc.Body)))
-		}
-		rs, ok := cc.Body[0].(*ast.ReturnStmt)
-		if !ok || len(rs.Results) != 1 {
-			die(fmt.Errorf("maxmsgsize: case without a single return"))
-		}
+		rs := cc.Body[0].(*ast.ReturnStmt)
 		v, err := evalConst(rs.Results[0], consts)
 		if err != nil {
 			die(fmt.Errorf("maxmsgsize: %v", err))
@@ -523,7 +309,7 @@ func main() {
 			def, haveDef = uint64(v), true
 		}
 		for _, l := range cc.List {
-			cmd, err := strconv.Unquote(show(l))
+			cmd, err := strconv.Unquote(showIn(mm.fset, l))
 			if err != nil {
 				die(err)
 			}
@@ -539,79 +325,32 @@ func main() {
 	}
 	fmt.Fprintf(&sb, "  %d\n\n", def)
 	nfacts += len(rows) + 1
-	sort.Strings(names)
 
-	// ---- lock traces of every function of the anchored files (locks.go)
+	// ---- lock traces of every function of the package (locks.go)
 	var traces []*lockWalker
-	pkgs, globals := map[string]bool{}, map[string]bool{}
-	traceFiles := []string{"tick.go", "ver.go", "addr.go", "invs.go", "hdrs.go", "data.go", "cblk.go", "trxs.go", "ping.go", "core.go"}
-	for _, rel := range traceFiles {
-		f := files["client/network/"+rel]
-		if f == nil {
-			var err error
-			if f, err = vtrans.Parse("client/network/" + rel); err != nil {
-				die(err)
-			}
-			files["client/network/"+rel] = f
+	// every file of the package (a function moved to another file stays traced), except the verification hooks
+	for _, sf := range ix.order {
+		if sf.file == "verif_export.go" || lockTraceSkip[sf.key] != "" {
+			continue
 		}
-		for _, d := range f.AST.Decls {
-			if gd, ok := d.(*ast.GenDecl); ok && gd.Tok == token.VAR {
-				for _, sp := range gd.Specs {
-					for _, n := range sp.(*ast.ValueSpec).Names {
-						globals[n.Name] = true
-					}
-				}
-			}
-		}
-		for _, im := range f.AST.Imports {
-			p, _ := strconv.Unquote(im.Path.Value)
-			if im.Name != nil {
-				pkgs[im.Name.Name] = true
-			} else {
-				pkgs[p[strings.LastIndex(p, "/")+1:]] = true
-			}
-		}
+		traces = append(traces, lockTraceOf(sf, ix.imports))
 	}
-	for _, rel := range traceFiles {
-		f := files["client/network/"+rel]
-		fset = f.Fset
-		for _, d := range f.AST.Decls {
-			fd, ok := d.(*ast.FuncDecl)
-			if !ok || fd.Body == nil {
-				continue
-			}
-			name := fd.Name.Name
-			if fd.Recv != nil && len(fd.Recv.List) == 1 {
-				t := show(fd.Recv.List[0].Type)
-				name = strings.TrimPrefix(t, "*") + "." + name
-			}
-			if lockTraceSkip[name] != "" {
-				continue
-			}
-			traces = append(traces, lockTraceOf(name, fd, pkgs))
-		}
-	}
-	resolveCalls(traces, pkgs, globals)
+	resolveCalls(traces, ix.imports, ix.globals)
 	if len(traces) < 60 {
 		die(fmt.Errorf("lock traces: only %d functions found", len(traces)))
 	}
+	sort.SliceStable(traces, func(i, j int) bool { return traces[i].fn < traces[j].fn })
 	nfacts += writeLockTraces(&sb, traces)
 	sb.WriteString("end GocoinV.Gen.NetFacts\n")
 	out := vlib.Root() + "/lean/GocoinV/Gen/NetFacts.lean"
+	if o := os.Getenv("GEN_C18_OUT"); o != "" {
+		out = o // scratch output (development only)
+	}
 	os.Remove(out)
 	if err := os.WriteFile(out, []byte(sb.String()), 0644); err != nil {
 		die(err)
 	}
 	fmt.Printf("FACTS %d\n", nfacts)
-}
-
-// clauseText prints the body of a case clause, one statement per entry.
-func clauseText(cc *ast.CaseClause) []string {
-	var out []string
-	for _, b := range cc.Body {
-		out = append(out, show(b))
-	}
-	return out
 }
 
 var (
@@ -621,13 +360,21 @@ var (
 	reCmd        = regexp.MustCompile(`\bcmd\b`)
 )
 
-// compareMirror checks that VerifDispatch's `switch cmd` has the same clauses, in the same order, with
-// the same statements as Run's `switch cmd.cmd` once Run's cmd.pl / cmd.trusted / cmd are written
-// pl / trusted / m. The default clause is exempt (Run's is empty, the mirror's reports "unknown").
+// clauseText prints the body of a case clause, one statement per entry, locals of the clause numbered.
+func clauseText(in *inst, cc *ast.CaseClause) []string {
+	var out []string
+	for _, b := range cc.Body {
+		out = append(out, showIn(in.fset, b))
+	}
+	return number(out, map[string]string{})
+}
+
+// compareMirror checks that VerifDispatch's `switch cmd` has the same clauses (as a set), with
+// the same statements as Run's dispatch switch once Run's <msg>.pl / <msg>.trusted / <msg> are written
+// pl / trusted / m (locals declared inside a clause are numbered on both sides, so their names do not matter).
+// The default clause is exempt (Run's is empty, the mirror's reports "unknown").
 // Returns the number of clauses compared.
-func compareMirror(runSw *ast.SwitchStmt) int {
-	saved := fset
-	defer func() { fset = saved }()
+func compareMirror(ix *pkgIndex, run *inst, runSw *ast.SwitchStmt) int {
 	runText := map[string][]string{}
 	var runOrder []string
 	for _, c := range runSw.Body.List {
@@ -637,11 +384,11 @@ func compareMirror(runSw *ast.SwitchStmt) int {
 		}
 		var labels []string
 		for _, l := range cc.List {
-			labels = append(labels, show(l))
+			labels = append(labels, showIn(run.fset, l))
 		}
 		key := strings.Join(labels, ",")
 		var body []string
-		for _, t := range clauseText(cc) {
+		for _, t := range clauseText(run, cc) {
 			t = reCmdPl.ReplaceAllString(t, "pl")
 			t = reCmdTrusted.ReplaceAllString(t, "trusted")
 			t = reCmdCmd.ReplaceAllString(t, "cmd")
@@ -651,26 +398,35 @@ func compareMirror(runSw *ast.SwitchStmt) int {
 		runText[key] = body
 		runOrder = append(runOrder, key)
 	}
-	vf, err := vtrans.Parse("client/network/verif_export.go")
-	if err != nil {
-		die(err)
+	vsf := ix.funcs["OneConnection.VerifDispatch"]
+	if vsf == nil {
+		die(fmt.Errorf("client/network: OneConnection.VerifDispatch (verif_export.go) not found"))
 	}
-	fset = vf.Fset
-	vd, err := vf.Func("OneConnection", "VerifDispatch")
-	if err != nil {
-		die(err)
-	}
+	vd := instantiate(vsf)
 	var msw *ast.SwitchStmt
-	ast.Inspect(vd.Body, func(n ast.Node) bool {
-		if s, ok := n.(*ast.SwitchStmt); ok && s.Tag != nil && show(s.Tag) == "cmd" {
-			msw = s
-			return false
+	ast.Inspect(vd.fd.Body, func(n ast.Node) bool {
+		if s, ok := n.(*ast.SwitchStmt); ok && s.Tag != nil && msw == nil {
+			if id, ok := s.Tag.(*ast.Ident); ok && id.Obj != nil && id.Obj.Name == "cmd" {
+				msw = s
+				return false
+			}
 		}
 		return true
 	})
 	if msw == nil {
 		die(fmt.Errorf("VerifDispatch: `switch cmd` not found"))
 	}
+	// everything declared outside the switch (receiver, parameters, m) keeps its own name: the hook file is ours
+	seen := map[*ast.Object]bool{}
+	ast.Inspect(vd.fd, func(n ast.Node) bool {
+		if id, ok := n.(*ast.Ident); ok && id.Obj != nil && !seen[id.Obj] && id.Obj.Kind != ast.Fun {
+			seen[id.Obj] = true
+			if p := vd.declPos[id.Obj]; p < msw.Pos() || p >= msw.End() {
+				vd.setName(id.Obj, id.Obj.Name)
+			}
+		}
+		return true
+	})
 	var mirOrder []string
 	hasDefault := false
 	for _, c := range msw.Body.List {
@@ -681,7 +437,7 @@ func compareMirror(runSw *ast.SwitchStmt) int {
 		}
 		var labels []string
 		for _, l := range cc.List {
-			labels = append(labels, show(l))
+			labels = append(labels, showIn(vd.fset, l))
 		}
 		key := strings.Join(labels, ",")
 		mirOrder = append(mirOrder, key)
@@ -689,12 +445,14 @@ func compareMirror(runSw *ast.SwitchStmt) int {
 		if !ok {
 			die(fmt.Errorf("dispatch mirror: VerifDispatch has a case %s that Run does not have", key))
 		}
-		got := clauseText(cc)
+		got := clauseText(vd, cc)
 		if strings.Join(got, "\n") != strings.Join(want, "\n") {
-			die(fmt.Errorf("dispatch mirror: case %s differs between Run and VerifDispatch\n--- Run (cmd.pl/cmd.trusted/cmd written pl/trusted/m)\n%s\n--- VerifDispatch\n%s",
+			die(fmt.Errorf("dispatch mirror: case %s differs between Run and VerifDispatch\n--- Run (<msg>.pl/<msg>.trusted/<msg> written pl/trusted/m)\n%s\n--- VerifDispatch\n%s",
 				key, strings.Join(want, "\n"), strings.Join(got, "\n")))
 		}
 	}
+	sort.Strings(mirOrder)
+	sort.Strings(runOrder)
 	if strings.Join(mirOrder, ";") != strings.Join(runOrder, ";") {
 		die(fmt.Errorf("dispatch mirror: the cases of VerifDispatch (%s) are not the cases of Run (%s)", strings.Join(mirOrder, ";"), strings.Join(runOrder, ";")))
 	}
@@ -702,12 +460,4 @@ func compareMirror(runSw *ast.SwitchStmt) int {
 		die(fmt.Errorf("dispatch mirror: VerifDispatch has no default clause"))
 	}
 	return len(runOrder)
-}
-
-func argList(ce *ast.CallExpr) string {
-	var a []string
-	for _, x := range ce.Args {
-		a = append(a, show(x))
-	}
-	return strings.Join(a, ", ")
 }
